@@ -121,8 +121,27 @@ template<class M> static void own_internal_table(const char* where) {
   }
 }
 #endif
+// the four kinds of INTERNAL rows (no action/no guard, action, guard, both): each one taken is a transition taken - the handled bit is set,
+// no_transition stays silent (C06); a rejected guard gives a non-zero code without the handled bit
+struct ping0 {}; struct ping1 {}; struct ping2 {}; struct ping3 {};
+struct IK_ : state_machine_def<IK_> {
+  struct S : state<> {};
+  typedef S initial_state;
+  struct transition_table : mpl::vector< Row<S,ping0,none,none,none>, Row<S,ping1,none,A<20>,none>, Row<S,ping2,none,none,G<0>>, Row<S,ping3,none,A<21>,G<1>> > {};
+  template<class F,class Ev> void no_transition(Ev const&,F&,int){ g_log += "NT "; }
+};
+typedef BE<IK_> IK;
 int main(int argc, char** argv) {
   if (argc > 1) g_only = argv[1];
+  for (unsigned v = 0; v < 4; ++v) {
+    g_bits = v; IK m; m.start(); g_log.clear();
+    ping0 p0; ping1 p1; ping2 p2; ping3 p3;
+    const int r0 = (int)m.process_event(p0), r1 = (int)m.process_event(p1), r2 = (int)m.process_event(p2), r3 = (int)m.process_event(p3);
+    const bool g0 = v & 1, g1 = (v >> 1) & 1;
+    const std::string exp = std::string("a20 g0 g1 ") + (g1 ? "a21 " : "");
+    const bool ok = (r0 & 1) && (r1 & 1) && (((r2 & 1) != 0) == g0) && r2 != 0 && (((r3 & 1) != 0) == g1) && r3 != 0 && g_log == exp;
+    report("internal-row-kinds.result.bits" + std::to_string(v), ok, "C06,C02,C13", "rets=" + std::to_string(r0) + std::to_string(r1) + std::to_string(r2) + std::to_string(r3) + " log=[" + g_log + "] expected=[" + exp + "]");
+  }
 #if !defined(CFG_back11)
   own_internal_table<IT>("root"); own_internal_table<ITop>("submachine");
 #endif
